@@ -39,6 +39,7 @@ def handlers : List (String × (Case → String)) := [
   ("overlap2", Drivers.Overlap.run2),
   ("subjoverlap", Drivers.Overlap.runSubj),
   ("leak", Drivers.Cancel.runLeak),
+  ("nextret", Drivers.Cancel.runNextRet),
   ("timed", Drivers.Timed.run),
   ("plugin", Drivers.Plugin.run),
   ("resub", Drivers.Resub.run),
